@@ -60,6 +60,7 @@ func H_C08_batch2() {
 	w, q := mResultWorker(func(j Job[int]) (int, error) { return j.Data() + 1, nil }, 2, 2)
 	g := q.AddAll([]Item[int]{{ID: "a", Data: d0}, {ID: "b", Data: d1}})
 	got, sum, readerDone, waited := 0, 0, false, false
+	vPrologueEnd()
 	go func() { // dispatcher (runs first in every round: -order)
 		mDispatch(w)
 		mDispatch(w)
